@@ -31,7 +31,7 @@ COMPONENTS = {
     'stub': ['joblib.Parallel (SimParallel)', 'user objective with the failure plan (harness world)', 'time.time', 'uuid1'],
 }
 PROBES_EXPECTED = ['exactly_four_serial', 'exactly_four_parallel', 'exactly_five_serial', 'exactly_five_parallel',
-                   'other_serial', 'other_parallel', 'run_family', 'abort_in_run', 'coarse_precision_resample']
+                   'other_serial', 'other_parallel', 'run_family', 'abort_in_run', 'coarse_precision_resample', 'marker_after_reroll']
 
 T = ('timeout', 'runtime')
 OTHER = ('value', 'key', 'zerodiv')
@@ -159,6 +159,7 @@ def _judge(ctx, w, batch, raised, workers, site):
     propagating = []
     started_all = True
     aborted_at = None
+    markers = {'sat': [], 'vio': []}
     for i, ind in enumerate(batch):
         pat = tuple(w.pattern[ind.id])
         cls = classify(pat)
@@ -218,6 +219,8 @@ def _judge(ctx, w, batch, raised, workers, site):
                 cs = list(ind.costs_signed)
                 if len(cs) != w.m + 1 or any(abs(float(cs[j]) - w.signs[j] * ind.costs[j]) > 1e-7 for j in range(w.m)):
                     ctx.violation('final_costs', site, 'design %d: signed costs %r do not belong to costs %r' % (i, cs, ind.costs))
+                elif w.ncons:
+                    _marker(ctx, w, markers, ind, fin, site, 'design %d' % i, len(calls) > 1)
         else:
             propagating.append((i, cls, pat))
             if aborted_at is None:
@@ -262,6 +265,26 @@ def _judge(ctx, w, batch, raised, workers, site):
             break
 
 
+def _marker(ctx, w, markers, ind, fin, site, what, rerolled):
+    """the signed costs that are finally stored belong to the finally stored vector - including the feasibility marker,
+    which must be the one of the re-rolled vector, not of the failed one"""
+    from .. import refmodels as R
+    rank = R.mrank(ind.costs_signed[-1])
+    feas = w.feasible(list(fin.vector))
+    if rerolled:
+        ctx.probe('marker_after_reroll')
+    if feas:
+        markers['sat'].append(rank)
+        bad = [r for r in markers['vio'] if not rank < r]
+    else:
+        markers['vio'].append(rank)
+        bad = [r for r in markers['sat'] if not r < rank]
+    if bad:
+        ctx.violation('final_costs', site, '%s: finally stored vector %r has constraints %r but marker %r (%s) - it does not rank '
+                      'satisfying designs ahead of violating ones' % (what, list(fin.vector), w.g(list(fin.vector)),
+                                                                      ind.costs_signed[-1], 're-rolled' if rerolled else 'first attempt'))
+
+
 def _run(D):
     """whole runs with a seeded failure plan; generic per-object oracle over the call log"""
     sim = W.begin_run(D)
@@ -289,6 +312,7 @@ def _run(D):
     for c in w.calls:
         by_obj.setdefault(c.obj, []).append(c)
     five = False
+    markers = {'sat': [], 'vio': []}
     for obj, calls in by_obj.items():
         got = [c.outcome for c in calls]
         nf = 0
@@ -332,6 +356,8 @@ def _run(D):
             # swarm algorithms move particles after evaluation: compare at the costs level only
             ctx.violation('final_costs', site, 'design id %d: costs %r do not belong to the last attempted vector %r'
                           % (ind.id, list(ind.costs), list(fin.vector)))
+        elif w.ncons and ind.state == ind.State.EVALUATED and len(ind.costs_signed) == w.m + 1:
+            _marker(ctx, w, markers, ind, fin, site, 'design id %d' % ind.id, nf > 0)
     failed_vecs = [tuple(float(v) for v in f.vector) for f in w.problem.failed]
     order = [tuple(float(v) for v in c.vector) for c in w.calls if c.outcome in T]
     if workers == 1:
